@@ -297,6 +297,16 @@ def valid_range_typed(tier):
         c = Case('valid_range_test', [inp], kw, n=2, pat={'inp': 'pp'}, meta={'class': 'integer-data'},
                  label=f'valid_range_test(integer ndarray; {kw})')
         yield c, specs.ValidRange(Case('valid_range_test', [], dict(kw), n=2, pat={'inp': 'pp'}))
+    for (lo, hi), si, ei in itertools.product([(1, 3), (2, 2), (0, 3), (-3, 0)], (None, False), (None, True)):
+        # whole-number bounds handed over as Python ints: the comparison of integers with integers is exact whatever their size
+        kw = dict(valid_span=(lo, hi))
+        if si is not None:
+            kw['start_inclusive'] = si
+        if ei is not None:
+            kw['end_inclusive'] = ei
+        c = Case('valid_range_test', [data_input('inp', 'pp', carrier='ndarray_int')], kw, n=2, pat={'inp': 'pp'},
+                 meta={'class': 'integer-data-integer-bounds'}, label=f'valid_range_test(integer ndarray; integer bounds {kw})')
+        yield c, specs.ValidRange(Case('valid_range_test', [], dict(kw, valid_span=(Fr(lo), Fr(hi))), n=2, pat={'inp': 'pp'}))
     day = 86400
     for (lo, hi) in ((Fr(day, 2), Fr(5 * day, 2)), (day, 3 * day)):
         cells = [El(('x', 'inp', i), False) for i in range(2)]
